@@ -3,6 +3,7 @@
 package main
 
 import (
+	"fmt"
 	"github.com/emersion/go-imap/v2"
 	"github.com/emersion/go-imap/v2/verifnum"
 )
@@ -21,10 +22,15 @@ type flavour interface {
 	Nums() ([]uint32, bool)
 	// ParseBack parses text with the parser that produces this flavour.
 	ParseBack(text string) (flavour, error)
+	// Alias checks value semantics against the operand of the latest AddSet (see keeper).
+	Alias() string
 }
 
 // ---- internal/imapnum.Set ----
-type fNum struct{ s verifnum.Set }
+type fNum struct {
+	s verifnum.Set
+	k keeper
+}
 
 func (f *fNum) Name() string         { return "imapnum.Set" }
 func (f *fNum) AddNum(vs ...uint32)  { f.s.AddNum(vs...) }
@@ -35,6 +41,8 @@ func (f *fNum) AddSet(t [][2]uint32) {
 		o = append(o, verifnum.Range{Start: r[0], Stop: r[1]})
 	}
 	f.s.AddSet(o)
+	op := &fNum{s: o}
+	f.k = keeper{op: op, want: cloneRanges(op.Ranges())}
 }
 func (f *fNum) Ranges() [][2]uint32 {
 	out := make([][2]uint32, len(f.s))
@@ -52,11 +60,14 @@ func (f *fNum) ParseBack(text string) (flavour, error) {
 	if err != nil {
 		return nil, err
 	}
-	return &fNum{s}, nil
+	return &fNum{s: s}, nil
 }
 
 // ---- imap.SeqSet ----
-type fSeq struct{ s imap.SeqSet }
+type fSeq struct {
+	s imap.SeqSet
+	k keeper
+}
 
 func (f *fSeq) Name() string         { return "imap.SeqSet" }
 func (f *fSeq) AddNum(vs ...uint32)  { f.s.AddNum(vs...) }
@@ -67,6 +78,8 @@ func (f *fSeq) AddSet(t [][2]uint32) {
 		o = append(o, imap.SeqRange{Start: r[0], Stop: r[1]})
 	}
 	f.s.AddSet(o)
+	op := &fSeq{s: o}
+	f.k = keeper{op: op, want: cloneRanges(op.Ranges())}
 }
 func (f *fSeq) Ranges() [][2]uint32 {
 	out := make([][2]uint32, len(f.s))
@@ -84,11 +97,14 @@ func (f *fSeq) ParseBack(text string) (flavour, error) {
 	if err != nil {
 		return nil, err
 	}
-	return &fSeq{s}, nil
+	return &fSeq{s: s}, nil
 }
 
 // ---- imap.UIDSet ----
-type fUID struct{ s imap.UIDSet }
+type fUID struct {
+	s imap.UIDSet
+	k keeper
+}
 
 func (f *fUID) Name() string { return "imap.UIDSet" }
 func (f *fUID) AddNum(vs ...uint32) {
@@ -105,6 +121,8 @@ func (f *fUID) AddSet(t [][2]uint32) {
 		o = append(o, imap.UIDRange{Start: imap.UID(r[0]), Stop: imap.UID(r[1])})
 	}
 	f.s.AddSet(o)
+	op := &fUID{s: o}
+	f.k = keeper{op: op, want: cloneRanges(op.Ranges())}
 }
 func (f *fUID) Ranges() [][2]uint32 {
 	out := make([][2]uint32, len(f.s))
@@ -132,10 +150,75 @@ func (f *fUID) ParseBack(text string) (flavour, error) {
 	if err != nil {
 		return nil, err
 	}
-	return &fUID{ns.(imap.UIDSet)}, nil
+	return &fUID{s: ns.(imap.UIDSet)}, nil
 }
 
 func newFlavours() []flavour { return []flavour{&fNum{}, &fSeq{}, &fUID{}} }
+
+// ---- value semantics ----
+// In the specification a number set is a value: AddSet(t) makes the receiver the union and nothing ties
+// the two sets together afterwards.  The harness keeps the operand of the latest AddSet of every flavour
+// alive, as a caller would, and after every later operation checks that (1) the operand still is what it
+// was (operations on the receiver must not write into it) and (2) inserting a number into the operand
+// leaves the receiver alone.
+type keeper struct {
+	op   flavour     // the operand, a live object of the same flavour
+	want [][2]uint32 // what it has to be
+	n    uint32
+}
+
+func eqU32Ranges(a, b [][2]uint32) bool {
+	if len(a) != len(b) {
+		return false
+	}
+	for i := range a {
+		if a[i] != b[i] {
+			return false
+		}
+	}
+	return true
+}
+
+func cloneRanges(a [][2]uint32) [][2]uint32 { return append([][2]uint32{}, a...) }
+
+// check returns a description of a violated clause, or "".
+func (k *keeper) check(recv flavour) string {
+	if k.op == nil {
+		return ""
+	}
+	if got := k.op.Ranges(); !eqU32Ranges(got, k.want) {
+		w := k.want
+		k.want = cloneRanges(got)
+		return fmt.Sprintf("the operand of an earlier AddSet was %v and now reads %v although nothing was inserted into it", w, got)
+	}
+	before := cloneRanges(recv.Ranges())
+	// poke the operand: a number in front, one in the middle, one behind (in turn)
+	k.n++
+	var v uint32
+	switch last := len(k.want); {
+	case last == 0:
+		v = 5
+	case k.n%3 == 0 && k.want[0][0] > 2:
+		v = k.want[0][0] - 2
+	case k.n%3 == 1 && k.want[last-1][1] != 0 && k.want[last-1][1] < 1<<32-3:
+		v = k.want[last-1][1] + 2
+	default:
+		v = k.want[0][1]/2 + k.want[0][0]/2 + 1
+	}
+	if v == 0 {
+		v = 1
+	}
+	k.op.AddNum(v)
+	k.want = cloneRanges(k.op.Ranges())
+	if after := recv.Ranges(); !eqU32Ranges(before, after) {
+		return fmt.Sprintf("inserting %d into the operand of an earlier AddSet changed the receiver from %v to %v", v, before, after)
+	}
+	return ""
+}
+
+func (f *fNum) Alias() string { return f.k.check(f) }
+func (f *fSeq) Alias() string { return f.k.check(f) }
+func (f *fUID) Alias() string { return f.k.check(f) }
 
 // parsePaths: every way the library turns sequence-set text into a set.
 type parsePath struct {
@@ -153,7 +236,7 @@ func parsePaths() []parsePath {
 			if err != nil {
 				return nil, err
 			}
-			return &fSeq{ns.(imap.SeqSet)}, nil
+			return &fSeq{s: ns.(imap.SeqSet)}, nil
 		}},
 		{"Decoder.ExpectNumSet(uid)", true, (&fUID{}).ParseBack},
 	}
